@@ -1,12 +1,38 @@
 """C08 - dataset filters select exactly what they document and never disturb their input."""
 ID = "C08"
-LEVEL = "exploration"
-LEVEL_TEXT = 'Bounded: every built-in filter and custom predicates against an oracle written from the statement, on datasets with planted exact/near duplicates, all-equal lengths and empty results; input snapshots before/after; provenance over sequences of up to three filters; from_config with recorded filters against manual application.'
-LEVEL_NOTE = 'Trusted: copy.deepcopy via MazeDataset.__deepcopy__ (muutils serialization).'
-TECHNIQUE = "bounded stand-in of the contract-based verifier: run-time checking of the real code against an independent executable statement over an enumerated scope (no function of this property is in the verified subset yet)"
-CONTRACT_MODULES = []
-PROVE = []
-ASSUMPTIONS = []
+LEVEL = "proof"
+LEVEL_TEXT = (
+    "PROVED (unbounded, z3; for every dataset length, every maze and every argument): the selection rule and order of the filters and the provenance record. "
+    "path_length keeps a maze iff len(solution) >= min_length; start_end_distance iff the Manhattan distance of start and end >= min_distance; the wrapper all per-maze "
+    "filters run through (register_maze_filter.wrapper, for an ARBITRARY pure predicate) and custom_maze_filter return exactly the input mazes satisfying the predicate, in "
+    "their original order; cut_percentile_shortest keeps exactly the mazes strictly longer than the truncated np.percentile of the lengths (empty dataset included); "
+    "truncate_count returns the first min(max_count, n) mazes; remove_duplicates keeps a maze iff no LATER maze is within the thresholds (same shape and at most that many "
+    "differing entries in the connection list, or in the solution; None disables a criterion, 0 does not) - two nested loop invariants - and raises ValueError exactly above the "
+    "length threshold; both wrappers append exactly one provenance entry (name, args, kwargs) after the entries already recorded and set cfg.n_mazes to the new length. "
+    "'Exactly those, in order' is the obligation that the keep-predicate the real comprehension / append loop computes agrees with the documented rule on every index "
+    "(pyvc/filt.py). NOT decided by proof (arrays and records are values in the encoding, assumption A-alias): that the input dataset is left untouched and the result shares "
+    "nothing with it; remove_duplicates_fast, strip_generation_meta, collect_generation_meta and the config-driven application - all decided by the bounded stand-in: "
+    "every built-in filter and custom predicates against an oracle written from the statement, on datasets with planted exact/near duplicates, all-equal lengths and empty "
+    "results; input snapshots before/after; provenance over sequences of up to three filters; from_config with recorded filters against manual application."
+)
+LEVEL_NOTE = ("Trusted: pyvc encoding; copy.deepcopy returns an equal value (MazeDataset.__deepcopy__ goes through muutils serialization; input isolation is bounded only); np.percentile "
+              "and np.sum(a != b) as uninterpreted pure functions; python's legacy __getitem__ iteration protocol; super().__init__() of torch Dataset has no effect; decorators "
+              "themselves (functools.wraps, staticmethod, registration) are not modelled: the decorated bodies and the wrapper bodies are verified separately.")
+TECHNIQUE = "contract-based deductive verification of the filter bodies and both filter wrappers (filtered-view obligations, loop invariants, z3) + bounded run-time checking for input isolation, metadata filters and config-driven application"
+CONTRACT_MODULES = ["contracts.filters"]
+MD = "maze_dataset/dataset/maze_dataset.py"
+PROVE = [
+    (MD, "MazeDatasetFilters.path_length"),
+    (MD, "MazeDatasetFilters.start_end_distance"),
+    (MD, "register_maze_filter.wrapper"),
+    ("maze_dataset/dataset/dataset.py", "register_dataset_filter.wrapper"),
+    (MD, "MazeDatasetFilters.cut_percentile_shortest"),
+    (MD, "MazeDatasetFilters.truncate_count"),
+    (MD, "MazeDatasetFilters.remove_duplicates"),
+    (MD, "MazeDataset.custom_maze_filter"),
+]
+ASSUMPTIONS = ["max_count >= 0 for truncate_count (a negative count is python slice semantics, outside the documented rule)",
+               "MazeDataset.__init__, __len__, __getitem__, update_self_config are inlined (their real bodies are executed symbolically at each call site)"]
 EXPLANATION = "see DESIGN.md C08"
 
 
